@@ -36,6 +36,7 @@ RULES = {
     'C02.j': 'the version arithmetic of the store cannot overflow: no overflow-checked `+` (a panic in debug builds, a wrap to i32::MIN in '
              'release builds) in the store, the increment or next_version — `set-safe k 2147483647 v` must be an ordinary write; the panic '
              'would be raised while the write guard of Database.map is held and poison it for every later command',
+    'C02.k': 'a write on a tombstone brings the key back to life (C01.g, repeated): kept Deleted, the next increment starts from 0 again and an acknowledged write or increment is lost',
 }
 
 
@@ -196,6 +197,8 @@ def run(ck, m):
     from props import C04 as _C04
     _C04.refusal_not_replicated(ck, m, rule='C02.i')
     version_arithmetic_saturates(ck, m)
+    from nl import alias
+    alias.repeat(ck, m, 'C01', ('C01.g',), 'C02.k')
     # ---- C02.c -------------------------------------------------------------------------
     rb = resolver_fn(m)
     sw = strategy_switch(m, rb)
@@ -355,6 +358,15 @@ def success_implies_write(ck, m):
         if not vals:
             continue
         ng += 1
+        # the literal reported for an absent key is a version a set-safe is CHECKED against: the "no version" sentinel (-1: the store
+        # then takes stored+1, i.e. accepts unconditionally) or the marker would let two writers creating the same key both succeed
+        lits = sorted({const_val(r) for _bi2, op_ in vals for r in origins(b, op_) if r[0] == 'const' and isinstance(const_val(r), int)})
+        neg = [x for x in lits if x < 0]
+        ck.ob('C02.e', short(b.id), 'absent-key-version-is-a-checked-one', not neg,
+              'the version reported for an absent key (%s) is one the store compares' % lits if not neg else
+              'get-safe reports the version %s for an absent key: a set-safe carrying -1 is unversioned — the store accepts it against any stored '
+              'version — so two clients that both read the absent key and both send `set-safe k -1 …` both succeed, the first acknowledged write '
+              'is overwritten' % neg, '%s:%s' % (b.file, b.line))
         # blocks where an integer literal enters the value that becomes the reported version
         lit_blocks = _literal_entry_blocks(b, vals[0][1])
         bad = []
